@@ -92,6 +92,20 @@ pub fn drive(args: &HashMap<String, String>) {
         let expr = p.body.render();
         cs.push(Case { p, open, envs, defs, expr });
     }
+    // AtLadder sessions: open, and closed with each argument pair as literals
+    for (p, envs) in crate::p_compile::at_ladder() {
+        let defs: Vec<String> = p.helpers.iter().map(|h| h.render()).collect();
+        cs.push(Case { expr: p.body.render(), defs: defs.clone(), envs: envs.clone(), open: true, p: p.clone() });
+        for e in envs.iter() {
+            if let V::P(pval, rest) = e {
+                if let V::P(qval, _) = &**rest {
+                    let vals: HashMap<String, V> = [("P".to_string(), (**pval).clone()), ("Q".to_string(), (**qval).clone())].into_iter().collect();
+                    let pc = Program { args: Pat::Nil, helpers: p.helpers.clone(), body: subst(&p.body, &vals) };
+                    cs.push(Case { expr: pc.body.render(), defs: defs.clone(), envs: vec![V::nil()], open: false, p: pc });
+                }
+            }
+        }
+    }
     // RestLadder / AssignLadder sessions (open: the program's parameters are the free variables)
     for (p, envs) in crate::p_compile::rest_and_assign_ladders() {
         let defs: Vec<String> = p.helpers.iter().map(|h| h.render()).collect();
@@ -101,7 +115,7 @@ pub fn drive(args: &HashMap<String, String>) {
     for (p, envs) in crate::p_compile::use_ladder(false) {
         let defs: Vec<String> = p.helpers.iter().map(|h| h.render()).collect();
         cs.push(Case { expr: p.body.render(), defs: defs.clone(), envs: envs.clone(), open: true, p: p.clone() });
-        let vals: HashMap<String, V> = [("P1".to_string(), V::int(1)), ("P2".to_string(), V::int(700))].into_iter().collect();
+        let vals: HashMap<String, V> = [("P1".to_string(), V::int(1)), ("P2".to_string(), V::int(700)), ("PPROG".to_string(), V::int(2))].into_iter().collect();
         let body = subst(&p.body, &vals);
         let pc = Program { args: Pat::Nil, helpers: p.helpers.clone(), body };
         cs.push(Case { expr: pc.body.render(), defs, envs: vec![V::nil()], open: false, p: pc });
